@@ -31,7 +31,7 @@ enum Kind {
 };
 static const char* KN[NKIND] = {"vec_znx_add", "vec_znx_rotate", "vec_znx_automorphism", "vec_znx_normalize_base2k", "vec_znx_dft", "vec_znx_dft+idft", "svp_apply_dft",
                                 "vmp_apply_dft", "znx_small_single_product", "vec_znx_big_normalize_base2k", "ntt120:vec_znx_dft+idft", "reim_fft", "reim_ifft",
-                                "reim_fftvec_mul", "reim_fftvec_addmul", "reim_from_znx64", "reim_to_znx64", "cplx_fft", "q120_ntt_bb_avx2", "q120_vec_mat1col_product_bbb",
+                                "reim_fftvec_mul", "reim_fftvec_addmul", "reim_from_znx64", "reim_to_znx64", "cplx_fft", "q120_ntt_bb_avx2", "q120_vec_mat1col_products(baa,bbb,bbc)",
                                 "reim4_from_cplx", "new/use/delete:private_FFT64_module", "new/use/delete:private_NTT120_module", "new/use/free:private_fft_precomp", "reim_fft_simple", "reim_fftvec_mul_simple", "reim_to_znx64_simple", "cplx_fft_simple", "reim4_fftvec_mul_simple",
                                 "cplx_from_znx32_simple", "reim_ifft_simple", "cplx_fftvec_mul_simple", "cplx_to_tnx32_simple", "reim_from_znx64_simple"};
 
@@ -51,6 +51,8 @@ struct Shared {
   CPLX_FFT_PRECOMP* cfft;
   q120_ntt_precomp* qntt;
   q120_mat1col_product_bbb_precomp* qbbb;
+  q120_mat1col_product_baa_precomp* qbaa;
+  q120_mat1col_product_bbc_precomp* qbbc;
   REIM4_FROM_CPLX_PRECOMP* r4fc;
 };
 static Shared S;
@@ -151,10 +153,22 @@ static std::vector<uint8_t> run_call(int kind, uint64_t dseed) {
     }
     case K_Q120_NTT: { uint64_t* x = (uint64_t*)xalloc(n * 32); for (size_t i = 0; i < 4 * n; ++i) x[i] = r.next(); q120_ntt_bb_avx2(S.qntt, (q120b*)x); grab(x, n * 32); free(x); break; }
     case K_Q120_BBB: {
-      const uint64_t ell = 16;
+      // the three q120 inner products (a x a, b x b, b x c; reference and AVX2 kernels) on SHARED precomputed objects, with vector
+      // lengths of very different size classes in flight at the same time
+      static const uint64_t ells[8] = {1, 2, 5, 16, 100, 300, 1000, 4000};
+      const uint64_t ell = ells[(dseed >> 3) & 7];
+      const int which = (int)((dseed >> 6) % 6);  // 0/1 baa ref/avx2, 2/3 bbb, 4/5 bbc
       uint64_t *x = (uint64_t*)xalloc(ell * 32), *y = (uint64_t*)xalloc(ell * 32), *o = (uint64_t*)xalloc(32);
       for (size_t i = 0; i < 4 * ell; ++i) { x[i] = r.next(); y[i] = r.next(); }
-      q120_vec_mat1col_product_bbb_avx2(S.qbbb, ell, (q120b*)o, (q120b*)x, (q120b*)y);
+      if (which < 2) for (size_t i = 0; i < 4 * ell; ++i) { x[i] &= 0xFFFFFFFFull; y[i] &= 0xFFFFFFFFull; }
+      switch (which) {
+        case 0: q120_vec_mat1col_product_baa_ref(S.qbaa, ell, (q120b*)o, (q120a*)x, (q120a*)y); break;
+        case 1: q120_vec_mat1col_product_baa_avx2(S.qbaa, ell, (q120b*)o, (q120a*)x, (q120a*)y); break;
+        case 2: q120_vec_mat1col_product_bbb_ref(S.qbbb, ell, (q120b*)o, (q120b*)x, (q120b*)y); break;
+        case 3: q120_vec_mat1col_product_bbb_avx2(S.qbbb, ell, (q120b*)o, (q120b*)x, (q120b*)y); break;
+        case 4: q120_vec_mat1col_product_bbc_ref(S.qbbc, ell, (q120b*)o, (q120b*)x, (q120c*)y); break;
+        default: q120_vec_mat1col_product_bbc_avx2(S.qbbc, ell, (q120b*)o, (q120b*)x, (q120c*)y);
+      }
       grab(o, 32); free(x); free(y); free(o); break;
     }
     case K_REIM4_FROM_CPLX: { uint64_t mm = m < 4 ? 4 : m; double* x = dbls(2 * mm); double* o = (double*)xalloc(2 * mm * 8); reim4_from_cplx(S.r4fc, o, x); grab(o, 2 * mm * 8); free(x); free(o); break; }
@@ -264,6 +278,8 @@ int main(int argc, char** argv) {
   S.cfft = new_cplx_fft_precomp(S.m, 0);
   S.qntt = q120_new_ntt_bb_precomp(S.n);
   S.qbbb = q120_new_vec_mat1col_product_bbb_precomp();
+  S.qbaa = q120_new_vec_mat1col_product_baa_precomp();
+  S.qbbc = q120_new_vec_mat1col_product_bbc_precomp();
   S.r4fc = new_reim4_from_cplx_precomp(S.m < 4 ? 4 : S.m);
   if (mode) {  // documented warm-up: one call per dimension of every *_simple function
     for (int kd = NTABLE; kd < NKIND; ++kd) run_call(kd, 12345 + kd);
